@@ -361,10 +361,11 @@ ORD_CODE = {"rlx": 0, "acq": 1, "rel": 2, "acqrel": 3, "sc": 4}
 def sequential_events(paths, c):
     """Sequential reading of a template from count `c`: the atomic events the compiled operation must
     perform when nothing else touches the counter."""
-    from z3 import BitVecVal, substitute, simplify, And, is_true, BoolVal, Solver, sat
+    from z3 import BitVec, BitVecVal, substitute, simplify, And, is_true, BoolVal, Solver, sat
     hits = []
     for p in paths:
-        m, sub, evs = c, [], []
+        # the payload type of the translation-validation harnesses (c02::V) has no drop glue
+        m, sub, evs = c, [(BitVec("TP_needs_drop", 64), BitVecVal(0, 64))], []
         for e in p["events"]:
             k = e["kind"]
             if k == "R" and e.get("ord") == "na":
